@@ -51,6 +51,10 @@ type c08Case struct {
 	// (b = 1); only the state after the last iteration is judged: the node must end up fenced and no
 	// commit may still hang
 	FailCall *int `json:"failing_statement_of_first_lost_iteration,omitempty"`
+	// InitRO: the local server's flags at the moment of the loss: 0 as the converged cluster has them,
+	// 1 read_only=1 with super_read_only=0 (what keep_super_writable_on_critical_disk_usage or an
+	// operator's SET GLOBAL read_only=1 leaves), 2 both set
+	InitRO int `json:"local_initial_read_only,omitempty"`
 }
 
 func (c c08Case) String() string {
@@ -67,6 +71,11 @@ func (c c08Case) String() string {
 	var rs []string
 	for _, k := range c.Remotes {
 		rs = append(rs, c08KindNames[k])
+	}
+	if c.InitRO != 0 {
+		cc := c
+		cc.InitRO = 0
+		return cc.String() + fmt.Sprintf(" local-initial-read-only=%d", c.InitRO)
 	}
 	return fmt.Sprintf("local=%s remotes=[%s] async=%v wc=%d plugin=%v disable=%v failro=%d write=%v excluded-user=%v longq=%v ssfail=%v adv=%v",
 		c.Local, strings.Join(rs, ","), c.Async, c.WC, c.PluginOn, c.DisableRO, c.FailRO, c.Write, c.Excluded, c.LongQuery, c.SSFail, c.Advances)
@@ -142,6 +151,12 @@ func c08Run(r *vt.Run, c c08Case) {
 		}
 		lsrv.FailRO = uint16(c.FailRO)
 		lsrv.FailSSQuery = c.SSFail
+		switch c.InitRO {
+		case 1:
+			lsrv.ReadOnly, lsrv.SuperRO = true, false
+		case 2:
+			lsrv.ReadOnly, lsrv.SuperRO = true, true
+		}
 		// lose the coordination service
 		w.SetCut(local, "zk", true)
 		w.ZK.SyncLinks()
@@ -222,7 +237,7 @@ func c08Run(r *vt.Run, c c08Case) {
 				}
 			}
 			muts = muts[:0]
-			roBefore := lsrv.ReadOnly
+			roBefore := lsrv.ReadOnly && lsrv.SuperRO // fenced means both flags
 			hadWaiters := lsrv.HasWaiters()
 			hadBlockers := lsrv.BlocksReadOnly()
 			tickStart := w.Now()
@@ -484,6 +499,16 @@ func checkC08(r *vt.Run) {
 							}
 						}
 					}
+				}
+			}
+		}
+	}
+	// the local server's own read_only / super_read_only flags at the moment of the loss
+	for _, loc := range []string{"master", "replica"} {
+		for _, rem := range multisets(2, allKinds) {
+			for _, iro := range []int{1, 2} {
+				for _, adv := range [][]int{nil, {5, 31}} {
+					run(c08Case{Local: loc, Remotes: rem, WC: 1, PluginOn: true, Advances: adv, InitRO: iro})
 				}
 			}
 		}
